@@ -24,6 +24,7 @@ import (
 	"strconv"
 	"strings"
 	"sync"
+	"sync/atomic"
 	"testing"
 	"time"
 	"unicode/utf8"
@@ -451,7 +452,9 @@ type c10LogOut struct {
 }
 
 func (o c10LogOut) Write(_ time.Time, _ bool, msg string) {
-	if strings.Contains(msg, "read message") {
+	// openMessage failed in dispatch / readDiskQueue could not decode the metadata: in both cases
+	// nothing will be delivered by this queue instance
+	if strings.Contains(msg, "read message") || strings.Contains(msg, "failed to read meta-data") {
 		o.mu.Lock()
 		*o.readErr++
 		o.mu.Unlock()
@@ -538,8 +541,15 @@ func (w *c10World) scan(when string) {
 	}
 }
 
+// after a few time-outs the tree under test is evidently broken: do not spend a minute on every further case
+var c10Timeouts int32
+
 func (w *c10World) wait(want int) {
-	deadline := time.Now().Add(60 * time.Second)
+	limit := 60 * time.Second
+	if atomic.LoadInt32(&c10Timeouts) >= 3 {
+		limit = 500 * time.Millisecond
+	}
+	deadline := time.Now().Add(limit)
 	for {
 		w.tgt.mu.Lock()
 		done := w.tgt.done
@@ -555,6 +565,7 @@ func (w *c10World) wait(want int) {
 		}
 		if time.Now().After(deadline) {
 			w.timedOut = true
+			atomic.AddInt32(&c10Timeouts, 1)
 			return
 		}
 		time.Sleep(200 * time.Microsecond)
@@ -717,7 +728,7 @@ func (w *c10World) monitor(out *vh.Out, op string, acc *c10Accepted, strictEnv b
 		out.Violation("C10/credential-in-spool", op, l)
 	}
 	if w.timedOut {
-		out.Violation("C10/queue-did-not-settle", op, "the queue did not reach the planned attempt within 60 s")
+		out.Violation("C10/queue-did-not-settle", op, "the queue did not reach the planned attempt in time")
 	}
 	w.tgt.mu.Lock()
 	seen := w.tgt.seen
